@@ -541,6 +541,206 @@ def execute(case: dict):
     return viols, stats, keys
 
 
+# ---------------------------------------------------------------------------
+# second workload: keys are spellings
+# ---------------------------------------------------------------------------
+# A mapping key is the attribute name *as written* (`"foo"` and `foo` are two keys for all three operations).  The
+# main workload reads its model back from the text with quotes normalised away, so it keeps to bare names; this one
+# keeps its own dictionary keyed by spelling, starts from documents it wrote itself and asks every candidate key
+# after every operation.
+
+SPELL_NAMES = ["foo", "bar", "q", "zz"]
+SPELL_ONLY_QUOTED = ['"a b"', '"x-1.y"', '"1st"']
+
+
+def _spell_universe():
+    return SPELL_NAMES + ['"%s"' % n for n in SPELL_NAMES] + SPELL_ONLY_QUOTED
+
+
+def generate_spelling(seed: int, tier: str) -> dict:
+    st = Streams(seed)
+    rng = st("spelling")
+    tag = (seed % 9000 + 1000) * 100
+
+    def members(ind):
+        nonlocal tag
+        lines, model = [], {}
+        pool = list(SPELL_NAMES)
+        rng.shuffle(pool)
+        for n in pool[: rng.randint(1, 4)]:
+            tag += 1
+            k = n if rng.random() < 0.5 else '"%s"' % n  # one spelling per name in the document as written
+            lines.append("%s%s = %d;" % (ind, k, tag))
+            model[k] = ("leaf", (str(tag),))
+        for k in SPELL_ONLY_QUOTED:
+            if rng.random() < 0.3:
+                tag += 1
+                lines.append("%s%s = %d;" % (ind, k, tag))
+                model[k] = ("leaf", (str(tag),))
+        return lines, model
+
+    top_lines, top = members("  ")
+    nested = None
+    if rng.random() < 0.5:
+        in_lines, nested = members("    ")
+        nk = rng.choice(["s", '"s"'])
+        top_lines.insert(rng.randrange(len(top_lines) + 1), "  %s = {\n%s\n  };" % (nk, "\n".join(in_lines)))
+    else:
+        nk = None
+    form = rng.choice(["plain", "plain", "let", "lambda"])
+    head = {"plain": "", "let": "let\n  k = 1;\nin\n", "lambda": "{ lib }:\n"}[form]
+    doc = head + "{\n" + "\n".join(top_lines) + "\n}\n"
+    ops = []
+    for _ in range(rng.randint(2, 7 if tier == "quick" else 10)):
+        tag += 1
+        if ops and rng.random() < 0.15:
+            ops.append({"op": "restart"})
+        where = "nested" if nested is not None and rng.random() < 0.4 else "top"
+        k = rng.choice(_spell_universe())
+        kind = rng.choice(["get", "set", "set", "del", "del"])
+        ops.append({"op": kind, "where": where, "key": k, "value": rng.choice([tag, "v%d" % tag, {"expr": str(tag)}])})
+    return {"prop": "C14", "engine": "mapping", "kind": "spelling", "seed": seed, "tier": tier, "doc": doc, "ops": ops,
+            "model": {"top": {k: list(v[1]) for k, v in top.items()}, "nested_key": nk,
+                      "nested": None if nested is None else {k: list(v[1]) for k, v in nested.items()}}}
+
+
+def execute_spelling(case: dict):
+    from nix_manipulator import parse
+
+    viols: list[Violation] = []
+    stats: dict = {"ops": 0, "spelling_cases": 1}
+    keys: list = []
+
+    def bump(k, n=1):
+        stats[k] = stats.get(k, 0) + n
+
+    top = {k: tuple(v) for k, v in case["model"]["top"].items()}
+    nk = case["model"]["nested_key"]
+    nested = None if case["model"]["nested"] is None else {k: tuple(v) for k, v in case["model"]["nested"].items()}
+    if reader.Doc(case["doc"]).has_error():
+        bump("skip:invalid_document")
+        return viols, stats, keys
+    src = parse(case["doc"])
+    universe = _spell_universe()
+
+    def cont(where):
+        return src[nk] if where == "nested" else src
+
+    def toks(got):
+        v = _norm(got)
+        return tuple(v[1]) if isinstance(v, tuple) and v and v[0] == "leaf" else v
+
+    def sweep(i, facts):
+        """Every candidate key, in both spellings, answers what the dictionary holds."""
+        for where, model in (("top", top), ("nested", nested)):
+            if model is None:
+                continue
+            try:
+                c = cont(where)
+            except Exception as e:  # noqa: BLE001
+                return "cannot reach the %s mapping any more: %r" % (where, e)
+            for name in universe:
+                try:
+                    have = toks(c[name])
+                    if name not in model:
+                        return "%s[%s] answers %r, the key is absent" % (where, name, have)
+                    if have != model[name]:
+                        return "%s[%s] answers %r, expected %r" % (where, name, have, model[name])
+                except KeyError:
+                    if name in model:
+                        return "%s[%s] raises KeyError, expected %r" % (where, name, model[name])
+                except Exception as e:  # noqa: BLE001
+                    return "%s[%s] raises %r" % (where, name, e)
+        return None
+
+    for i, op in enumerate(case["ops"]):
+        if op["op"] == "restart":
+            src = parse(src.rebuild())
+            bump("restarts")
+            continue
+        where = op["where"]
+        model = nested if where == "nested" else top
+        if model is None:
+            continue
+        bump("ops")
+        k = op["key"]
+        other = k[1:-1] if k.startswith('"') else '"%s"' % k
+        facts = {"spelling": True, "op": op["op"], "where": where, "quoted_key": k.startswith('"'), "present": k in model,
+                 "other_spelling_present": other in model}
+        keys.append(digest([sorted(top.items()), sorted(nested.items()) if nested is not None else None, op["op"], where, k]))
+        before = src.rebuild()
+        exc = None
+        got = None
+        try:
+            c = cont(where)
+            if op["op"] == "get":
+                got = c[k]
+            elif op["op"] == "set":
+                c[k] = to_python(op["value"])
+            else:
+                del c[k]
+        except Exception as e:  # noqa: BLE001
+            exc = e
+        after = src.rebuild()
+        if op["op"] == "get":
+            bump("probe:spell_get_present" if k in model else "probe:spell_get_absent")
+            if k in model and (exc is not None or toks(got) != model[k]):
+                viols.append(Violation("C14.lookup_wrong", "lookup of %s answers %r, expected %r" % (k, exc if exc else toks(got), model[k]), i, facts))
+            if k not in model and not isinstance(exc, KeyError):
+                viols.append(Violation("C14.missing_key_no_keyerror", "lookup of absent key %s: %r" % (k, exc if exc else toks(got)), i, facts))
+            if after != before:
+                viols.append(Violation("C14.lookup_mutated", "a lookup changed the rebuilt text", i, facts))
+        elif op["op"] == "set":
+            bump("probe:spell_set_existing" if k in model else "probe:spell_set_new")
+            if exc is not None:
+                viols.append(Violation("C14.set_failed", "assignment of %s raised %r" % (k, exc), i, facts))
+                break
+            model[k] = tuple(tokens_of_python(op["value"])[1])
+        else:
+            if k in model:
+                bump("probe:spell_del_present")
+                if exc is not None:
+                    viols.append(Violation("C14.del_failed", "deletion of present key %s raised %r" % (k, exc), i, facts))
+                    break
+                del model[k]
+            else:
+                bump("probe:spell_del_absent")
+                if not isinstance(exc, KeyError):
+                    viols.append(Violation("C14.missing_key_no_keyerror", "deletion of absent key %s: %r" % (k, exc), i, facts))
+                if after != before:
+                    viols.append(Violation("C14.failed_op_mutated", "deleting an absent key changed the text", i, facts))
+        if viols:
+            break
+        bad = sweep(i, facts)
+        if bad:
+            viols.append(Violation("C14.mapping_law", bad, i, facts))
+            break
+        # the text shows exactly these bindings: count them (per spelling) in a fresh parse
+        fresh = parse(after)
+        try:
+            for where2, m2 in (("top", top), ("nested", nested)):
+                if m2 is None:
+                    continue
+                c2 = fresh[nk] if where2 == "nested" else fresh
+                names = [b.name for b in c2.values if hasattr(b, "name") and hasattr(b, "value")] if hasattr(c2, "values") else None
+                if names is None:
+                    tgt = fresh.expr
+                    for _ in range(6):
+                        if hasattr(tgt, "values"):
+                            break
+                        tgt = getattr(tgt, "output", None) or getattr(tgt, "value", None) or getattr(tgt, "body", None)
+                    names = [b.name for b in tgt.values if hasattr(b, "name") and hasattr(b, "value")]
+                want = sorted(m2) + ([nk] if where2 == "top" and nk else [])
+                if sorted(names) != sorted(want):
+                    viols.append(Violation("C14.text_disagrees", "%s level: the text shows bindings %r, the mapping holds %r" % (where2, sorted(names), sorted(want)), i, facts))
+                    break
+        except Exception as e:  # noqa: BLE001
+            viols.append(Violation("C14.text_invalid", "cannot read the rebuilt text back: %r" % (e,), i, facts))
+        if viols:
+            break
+    return viols, stats, keys
+
+
 def _strip(v):
     if isinstance(v, dict):
         return {k: _strip(x) for k, x in v.items()}
@@ -561,14 +761,23 @@ class MappingProperty:
         self.runs = {"quick": quick_runs, "thorough": thorough_runs}
 
     def generate(self, seed, tier):
+        if Streams(seed)("kind").random() < 0.12:
+            return generate_spelling(seed, tier)
         return generate(seed, tier)
 
     def execute(self, case):
+        if case.get("kind") == "spelling":
+            return execute_spelling(case)
         return execute(case)
 
     def shrink_candidates(self, case):
         ops = case["ops"]
         n = len(ops)
+        if case.get("kind") == "spelling":
+            # the model travels with the document: shrink the history only
+            for k in range(n):
+                yield dict(case, ops=ops[:k] + ops[k + 1:])
+            return
         size = max(1, n // 2)
         while size >= 1:
             for start in range(0, n, size):
